@@ -87,6 +87,7 @@ class Opaque:
 
 
 UNIT = Agg('()', ())
+INF = z3.Real('INF!f64')
 
 DISCR = {'None': 0, 'Some': 1, 'Ok': 0, 'Err': 1, 'Less': 255, 'Equal': 0, 'Greater': 1,
          'Break': 1, 'Continue': 0,
@@ -644,6 +645,14 @@ class Interp:
             tab = {'EPSILON': Fraction(1, 2 ** 52), 'MIN_POSITIVE': Fraction(1, 2 ** 1022), 'MAX': Fraction((2 ** 53 - 1) * 2 ** 971)}
             if m.group(1) in tab:
                 return tab[m.group(1)]
+            if m.group(1) == 'INFINITY':
+                return INF          # a symbolic bound: obligations assume INF > every finite quantity they mention
+            if m.group(1) == 'NEG_INFINITY':
+                return -INF
+        m = re.fullmatch(r'(?:core::num::<impl )?([iu](?:8|16|32|64|128|size))>?::(MIN|MAX)', t)
+        if m:
+            lo, hi = INT_RANGE[m.group(1)]
+            return lo if m.group(2) == 'MIN' else hi
         if t in self.consts:
             return self.consts[t]
         raise Unsupported('const %s' % t)
